@@ -418,6 +418,7 @@ func kfOldInstanceGC(c *lib.Ctx) {
 	for i := 0; i < 12; i++ {
 		old.Put([]byte(fmt.Sprintf("k%02d", i)), []byte(fmt.Sprintf("v%02d-padding-padding", i)))
 	}
+	lib.DKVIdle(watchdog)
 	lib.Must(old.WaitOnTasks())
 	h, err := old.Checkpoint(1)()
 	lib.Must(err)
